@@ -186,7 +186,15 @@ func typedTree(c *Ctx, pkg typedPkg, seed int64, level int) {
 			umons = append(umons, um)
 			return true
 		}
-		if !addMonitors("controller", tc, uc) || !addMonitors("Clone", tcl, ucl) || !addMonitors("CloneWithFilter", tcf, ucf) || !addMonitors("CloneForFilter", tcff, ucff) {
+		// a clone that holds nothing (filter.All rejects everything): a unitary
+		// handler is initialised by nothing
+		tcn, _, errn := tc.cloneF((&Filt{Tag: FAll}).Go())
+		ucn, _ := uc.CloneWithFilter((&Filt{Tag: FAll}).Go())
+		if errn != nil {
+			fail("typed CloneWithFilter(filter.All()) failed: %v", errn)
+			return
+		}
+		if !addMonitors("controller", tc, uc) || !addMonitors("Clone", tcl, ucl) || !addMonitors("CloneWithFilter", tcf, ucf) || !addMonitors("CloneForFilter", tcff, ucff) || !addMonitors("CloneWithFilter(All)", tcn, ucn) {
 			return
 		}
 
@@ -195,7 +203,7 @@ func typedTree(c *Ctx, pkg typedPkg, seed int64, level int) {
 			t    *tctl
 			u    kcache.CacheController
 		}
-		ctls := []pair{{"controller", tc, uc}, {"Clone", tcl, ucl}, {"CloneWithFilter", tcf, ucf}, {"CloneForFilter", tcff, ucff}}
+		ctls := []pair{{"controller", tc, uc}, {"Clone", tcl, ucl}, {"CloneWithFilter", tcf, ucf}, {"CloneForFilter", tcff, ucff}, {"CloneWithFilter(All)", tcn, ucn}}
 		restrictIDs := func(ids []int) []int {
 			var r []int
 			for _, id := range ids {
@@ -358,7 +366,7 @@ func typedTree(c *Ctx, pkg typedPkg, seed int64, level int) {
 		}
 		wcode := map[string]int{"create": 0, "update": 1, "delete": 2, "init": 3}
 		cbMu.Lock()
-		for _, name := range []string{"controller", "Clone", "CloneWithFilter", "CloneForFilter"} {
+		for _, name := range []string{"controller", "Clone", "CloneWithFilter", "CloneForFilter", "CloneWithFilter(All)"} {
 			var ul, tl []enc.T
 			for _, r := range uraw[name] {
 				if r.what == 3 {
